@@ -212,7 +212,12 @@ def run_case(seed, tier, rec, st):
                                           dict(facts, encoded_only_basic=only_basic(p_obs)))
                             continue
                     except Exception as ex:
-                        rec.violation(f"{fname}:{rname}:unparsable-document:{type(ex).__name__}", det(doc=common.short(doc, 300)), facts)
+                        try:
+                            from mashumaro.codecs.basic import BasicEncoder
+                            eob = only_basic(BasicEncoder(W if is_dc else common.eval_type(fam, tt)).encode(v))
+                        except Exception:
+                            eob = None
+                        rec.violation(f"{fname}:{rname}:unparsable-document:{type(ex).__name__}", det(doc=common.short(doc, 300)), dict(facts, encoded_only_basic=eob))
                         continue
                     # (a) round trip
                     try:
